@@ -1041,6 +1041,13 @@ impl CommitEnv for LsmCommitEnv {
 			processed_batch.add_record(entry.kind, entry.key.clone(), encoded_value, timestamp)?;
 		}
 
+		// A batch that no memtable can take must not reach the commit log: its
+		// apply would fail, commit() would return an error, and the record
+		// would still be replayed by the next recovery.
+		if !MemTable::can_ever_hold(&processed_batch, self.core.opts.max_memtable_size) {
+			return Err(Error::ArenaFull);
+		}
+
 		// Write to WAL for durability
 		let enc_bytes = processed_batch.encode()?;
 		let mut wal_guard = self.core.wal.write();
